@@ -186,7 +186,7 @@ func init() {
 		)
 		fams = append(fams, family{Name: "value/evm-forwarder(sum only)", Base: func() sim.History { return forwarderHistory(genesis3()) }, Menu: c02Menu()[:12], WithEnv: true, NAppend: 1, MaxD: 1, MaxDTh: 2, SumOnly: true})
 		fams = append(fams, family{Name: "value/rich-sender-power-limits", Base: func() sim.History { return valueHistory(genesis3R()) }, Menu: richMenu(), WithEnv: true, NAppend: 2, MaxD: 2, MaxDTh: 3,
-			Core: coreAppend(blocksSet(2, 3, 4), 25, 1)})
+			Core: coreAppend(blocksSet(2, 3), 19, 0)})
 		return &modelCheck{id: "C02", owners: map[string]bool{"C02": true}, balWhy: []string{"*"}, families: fams, extra: conservation, evmSum: true,
 			meta: modelMeta("deviation-bounded exhaustive history exploration with reference model + conservation invariant over the implementation's full state",
 				"C02 families: a value history (user stakes, two contracts, 5 free blocks) with up to 3 inserted transactions per block from a 28-template value menu (boundary amounts 1 / balance-fee / balance-fee+1 / 2^255-1 / 2^255 / 2^256-1, self-transfer, boundary-balance sender, staking 1R / 1R+1 / 0, unstaking own / foreign / BOTH genesis stakes, full unstake then re-stake twice in one block, withdrawals 0 / 1 / exact / excessive / repeated, deployment and calls carrying value, value into a reverting contract, plain transfers to contracts) plus evidence, missed signatures (jailing) and proposer-less blocks; D<=2 over the core sub-menu (thorough: 3); plus a family that pushes value through a forwarding contract into a receiver that first reverts (nested revert, then value to the same address), judged by the model-independent conservation sum only; plus every gadget program of C17's alphabet up to length 2 (value-forwarding calls, nested reverts, CREATE, SELFDESTRUCT) in C17's history families, judged by 'total value of the node == total value of native model + reference EVM world' at every height. "+
@@ -528,7 +528,7 @@ func init() {
 		return &modelCheck{id: "C14", owners: map[string]bool{"C14": true}, families: fams, extra: slashFrame,
 			meta: modelMeta("deviation-bounded exhaustive exploration of evidence / missed-signature sequences with reference model (amounts) and per-block frame condition",
 				"C14 families: a validator with stakes of power 10,1,2,3 (so that rounding and forfeiture fire) and another with 8,5, an open two-option proposal with the offenders' votes, slash ratio in {1,33,50,100}, (window,minimum) in {(3,2),(2,2),(4,1)}; per-block evidence entry from {V1, unknown address, V2, V1 twice, V1+V2, a non-validator} and per-block missed-signature pattern, in every pair of blocks (thorough: triples). "+
-					"Oracle: per piece of evidence every stake of the named validator loses floor(p*r/100) (forfeited if that is 0), its voter weight and the proposal total in OPEN proposals shrink by floor(w*r/100), majority recomputed; nothing else changes in that BeginBlock: delegatees other than the named ones keep exactly their stake records (frame); jailing exactly when signed blocks in the window fall below the minimum: all stakes moved to unbonding, validator leaves the set; validators above the threshold untouched.")}
+					"Oracle: per piece of evidence every stake of the named validator loses floor(p*r/100) (forfeited if that is 0), its voter weight and the proposal total in OPEN proposals shrink by floor(w*r/100), an already cast vote counts with the reduced weight in its option's tally, majority recomputed; nothing else changes in that BeginBlock: delegatees other than the named ones keep exactly their stake records (frame); jailing exactly when signed blocks in the window fall below the minimum: all stakes moved to unbonding, validator leaves the set; validators above the threshold untouched.")}
 	})
 }
 
